@@ -1019,7 +1019,7 @@ func (r *FileSequenceAggregator) Aggregate() {
 
 func (r *FileSequenceAggregator) GetProcessors() {
 	r.multiCall = true
-	r.coProcessor, r.initColMeta, r.multiCall = newProcessor(r.inSchema[:r.inSchema.Len()-1], r.outSchema[:r.outSchema.Len()-1], r.exprOpt)
+	r.coProcessor, r.initColMeta, r.multiCall = newProcessor(r.inSchema[:r.inSchema.Len()-1], r.outSchema[:r.outSchema.Len()-1], r.exprOpt, true)
 	r.reducerParams.multiCall = r.multiCall
 	r.timeOrdinal = r.outSchema.Len() - 1
 }
